@@ -381,7 +381,7 @@ func (h *c08hist) doReset(t int, flag bool) bool {
 
 // ---- generator ----
 
-var c08Shapes = [][]int{{}, {2}, {3}, {2, 2}, {2, 3}}
+var c08Shapes = [][]int{{}, {2}, {3}, {2, 2}, {2, 3}, {1}, {2, 1}, {1, 3}}
 
 func (h *c08hist) usable() []int {
 	var out []int
@@ -420,7 +420,15 @@ func (h *c08hist) genOp() (ref.Instr, bool) {
 		return c[r.Intn(len(c))]
 	}
 	rank := len(v.Shape)
-	switch r.Intn(11) {
+	switch r.Intn(12) {
+	case 11: // operations whose backward rule is computed from the operand alone: Pow(0), Var/StdAlong over a size-1 dimension
+		if rank >= 1 && r.Intn(2) == 0 {
+			dim := r.Intn(rank)
+			if v.Shape[dim] == 1 || fibresSeparated(v, dim, 1e-2) {
+				return ref.Instr{Op: []string{"varalong", "stdalong"}[r.Intn(2)], In: []int{x}, Dim: dim}, true
+			}
+		}
+		return ref.Instr{Op: "pow", In: []int{x}, F: 0}, true
 	case 10: // shape-preserving or shape-changing views (the identical target shape is a deliberate candidate)
 		switch {
 		case r.Intn(2) == 0:
